@@ -204,6 +204,8 @@ HsviOK(r) ==
         /\ LET m == IF r.in[1] >= r.in[2] /\ r.in[1] >= r.in[3] THEN r.in[1] ELSE IF r.in[2] >= r.in[3] THEN r.in[2] ELSE r.in[3]
            IN  (r.rgb2hsv[3] = m \/ r.rgb2hsv[3] = m - 1) /\ (r.rgb2hsv4[3] = m \/ r.rgb2hsv4[3] = m - 1)
         /\ \A i \in 1..3 : r.rgb2hsv[i] \in 0..r.max /\ r.hsv2rgb[i] \in 0..r.max
+        \* the Vec3 and Color4 overloads agree
+        /\ \A i \in 1..3 : r.rgb2hsv4[i] = r.rgb2hsv[i] /\ r.hsv2rgb4[i] = r.hsv2rgb[i]
 
 \* rgb2packed(Vec3) sets the alpha byte to 0xFF
 PackedOK(r) == r.q4 = r.p /\ r.q3 = <<(r.p[1] % 256) + 65280, r.p[2]>>
